@@ -316,7 +316,15 @@ class Rat:
         return f"({show_poly(r.num)}) / ({show_poly(r.den)})"
 
 
+def _numeric(x):
+    return isinstance(x, (Rat, Poly, Fraction, int, float)) and not isinstance(x, bool)
+
+
 def equal(a, b):
+    if not _numeric(a) or not _numeric(b):
+        if isinstance(a, (tuple, list)) and isinstance(b, (tuple, list)):
+            return len(a) == len(b) and all(equal(x, y) for x, y in zip(a, b))
+        return a is b or (type(a) is type(b) and not _numeric(a) and a == b)
     a, b = Rat.lift(a), Rat.lift(b)
     d = Rat(a.num * b.den - b.num * a.den)
     return reduce_sqrt(d).num.is_zero()
